@@ -11,12 +11,88 @@ KINDS = ["Square", "Normal", "Poisson", "Gamma", "NegBinom"]
 SPREAD_KW = {"Normal": "sigma", "Gamma": "shape", "NegBinom": "k"}
 
 
+def _T(o, d, rate):
+    return {"rate": rate, "rate_kind": "x", "trans": [{"kind": "T", "o": o, "d": d, "mag": {"int": 1}}]}
+
+
+def _B(d, rate):
+    return {"rate": rate, "rate_kind": "x", "trans": [{"kind": "B", "o": None, "d": d, "mag": {"int": 1}, "birth_by": "destination"}]}
+
+
+def _D(o, rate):
+    return {"rate": rate, "rate_kind": "x", "trans": [{"kind": "D", "o": o, "d": None, "mag": {"int": 1}}]}
+
+
+def _mirror(name):
+    """Hand-written abstract mirror of a pygom.common_models entry (states, parameters in the catalogue's order)."""
+    P, St, mul, div, add, neg, C = ir.P, ir.S, ir.mul, ir.div, ir.add, ir.neg, ir.C
+    if name == "SIR_norm":
+        states, params = ["S", "I", "R"], ["beta", "gamma"]
+        ev, od = [_T("S", "I", mul(P("beta"), St("S"), St("I"))), _T("I", "R", mul(P("gamma"), St("I")))], []
+    elif name in ("SIS", "SIR", "SEIR"):
+        params = {"SIS": ["beta", "gamma", "N"], "SIR": ["beta", "gamma", "N"], "SEIR": ["beta", "alpha", "gamma", "N"]}[name]
+        states = {"SIS": ["S", "I"], "SIR": ["S", "I", "R"], "SEIR": ["S", "E", "I", "R"]}[name]
+        foi = div(mul(P("beta"), St("S"), St("I")), P("N"))
+        if name == "SIS":
+            ev = [_T("S", "I", foi), _T("I", "S", mul(P("gamma"), St("I")))]
+        elif name == "SIR":
+            ev = [_T("S", "I", foi), _T("I", "R", mul(P("gamma"), St("I")))]
+        else:
+            ev = [_T("S", "E", foi), _T("E", "I", mul(P("alpha"), St("E"))), _T("I", "R", mul(P("gamma"), St("I")))]
+        od = []
+    elif name == "Lotka_Volterra":
+        states, params = ["x", "y"], ["alpha", "beta", "gamma", "delta"]
+        ev = [_B("x", mul(P("alpha"), St("x"))), _D("x", mul(P("beta"), St("x"), St("y"))),
+              _B("y", mul(P("delta"), St("x"), St("y"))), _D("y", mul(P("gamma"), St("y")))]
+        od = []
+    elif name == "FitzHugh":
+        states, params = ["V", "R"], ["a", "b", "c"]
+        V, R = St("V"), St("R")
+        ev = []
+        od = [{"state": "V", "expr": mul(P("c"), add(add(V, neg(div(mul(V, V, V), C(3)))), R))},
+              {"state": "R", "expr": neg(div(add(add(V, neg(P("a"))), mul(P("b"), R)), P("c")))}]
+    else:
+        raise KeyError(name)
+    return {"state_decl": [{"name": n, "lims": None} for n in states], "state_style": "list", "params": params,
+            "param_style": "list", "derived": [], "events": ev, "odes": od, "family": "catalogue:" + name, "catalogue": name}
+
+
+# name: (parameter box, initial-state box, longest horizon, signed trajectories?)
+CATALOGUE = {
+    "SIR_norm": ({"beta": (0.3, 1.5), "gamma": (0.1, 0.8)}, [(0.5, 0.95), (0.01, 0.2), (0.0, 0.1)], 8.0, False),
+    "SIS": ({"beta": (0.3, 1.5), "gamma": (0.1, 0.8), "N": (50, 50)}, [(20, 45), (1, 10)], 8.0, False),
+    "SIR": ({"beta": (0.3, 1.5), "gamma": (0.1, 0.8), "N": (60, 60)}, [(30, 50), (1, 10), (0, 5)], 8.0, False),
+    "SEIR": ({"beta": (0.3, 1.5), "alpha": (0.2, 1.0), "gamma": (0.1, 0.8), "N": (60, 60)}, [(30, 50), (1, 5), (1, 5), (0, 5)], 8.0, False),
+    "Lotka_Volterra": ({"alpha": (0.3, 1.0), "beta": (0.02, 0.15), "gamma": (0.3, 1.0), "delta": (0.02, 0.15)}, [(2, 12), (2, 12)], 4.0, False),
+    "FitzHugh": ({"a": (0.1, 0.4), "b": (0.1, 0.4), "c": (1.0, 3.0)}, [(-1.5, 1.5), (-1.0, 1.0)], 4.0, True),
+}
+
+
+@st.composite
+def catalogue_case(draw, n_times):
+    name = draw(st.sampled_from(sorted(CATALOGUE)))
+    pbox, xbox, tmax, _signed = CATALOGUE[name]
+    m = _mirror(name)
+    theta = [S.sig(draw(S.fl(*pbox[q], 3)), 4) if pbox[q][0] != pbox[q][1] else float(pbox[q][0]) for q in m["params"]]
+    x0 = [S.sig(draw(S.fl(lo, hi, 3)), 4) if lo != hi else float(lo) for lo, hi in xbox]
+    n = draw(st.integers(*n_times))
+    step = draw(S.fl(0.3, 1.0, 2)) * tmax / n
+    rel = [S.sig(step * (i + 1), 5) for i in range(n)]
+    return m, {"x0": x0, "theta": theta, "t0": draw(st.sampled_from([0.0, 0.0, 1.0])), "grid_rel": rel}
+
+
 @st.composite
 def loss_case(draw, kinds=KINDS, weights=True, target_param="subset-ordered", target_state=False, max_states=4,
-              n_times=(3, 12), additive=False, families=("chain", "epidemic", "bounded"), allow_time=True):
-    """target_param: None | 'subset-ordered' (subset in declared order) | 'any-order' (subset, generated order)."""
-    m = draw(S.ode_model(max_states=max_states, additive_params=additive, families=families, allow_time=allow_time))
-    su = draw(S.ode_setup(m, n_times=n_times, t_max=5.0))
+              n_times=(3, 12), additive=False, families=("chain", "epidemic", "bounded"), allow_time=True, catalogue=0):
+    """target_param: None | 'subset-ordered' (subset in declared order) | 'any-order' (subset, generated order).
+    catalogue: k in 0..4 - in k of 4 cases the model is a pygom.common_models entry (with a hand-written abstract mirror)."""
+    if catalogue and not additive and draw(st.integers(1, 4)) <= catalogue:
+        m, su = draw(catalogue_case(n_times))
+        if CATALOGUE[m["catalogue"]][3]:
+            kinds = [k for k in kinds if k in ("Square", "Normal")] or ["Square"]
+    else:
+        m = draw(S.ode_model(max_states=max_states, additive_params=additive, families=families, allow_time=allow_time))
+        su = draw(S.ode_setup(m, n_times=n_times, t_max=5.0))
     # container / dtype forms in which a user may legitimately hand over the same numbers
     forms = {"t": draw(st.sampled_from(["float_array", "float_array", "list", "int_array", "int_list"])),
              "y": draw(st.sampled_from(["float_array", "float_array", "list", "int_array"])),
@@ -92,7 +168,7 @@ def make_data(case):
     ref = reference_traj(m, su["theta"], su["x0"], su["t0"], times)
     cols = [names.index(s) for s in case["obs"]]
     y = ref[:, cols].copy()
-    if (y <= 1e-6).any():
+    if (y <= 1e-6).any() and case["loss"] not in ("Square", "Normal"):
         raise Inconclusive("observed trajectory not positive")
     if case["noise"]:
         i, j = np.indices(y.shape)
@@ -117,8 +193,20 @@ def build(case, y):
     """Construct the PyGOM model and loss object as a user would."""
     import pygom
     m, su = case["model"], case["setup"]
-    model, order = render.build(m)
-    model.parameters = list(su["theta"])
+    if m.get("catalogue"):
+        from pygom import common_models
+        from pygom.model import ode_utils
+        model = getattr(common_models, m["catalogue"])()
+        model._SC = ode_utils.compileCode(backend="lambda")
+        model.parameters = list(su["theta"])
+        # the hand-written mirror must describe the same system, otherwise the oracle is in doubt (assembly is C01's subject)
+        f_model = np.asarray(model.ode(list(su["x0"]), su["t0"]), float).reshape(-1)
+        f_ir = ir.reference_float(m, su["x0"], su["t0"], su["theta"])["f"]
+        if not np.allclose(f_model, f_ir, rtol=1e-9, atol=1e-12):
+            raise Inconclusive("catalogue mirror disagrees with the model's ode")
+    else:
+        model, order = render.build(m)
+        model.parameters = list(su["theta"])
     cls = getattr(pygom, case["loss"] + "Loss")
     times = times_of(case)
     p = len(case["obs"])
